@@ -17,7 +17,8 @@ func c12Candidates(lvl int) []string {
 	num := gen.Lit("1", "2", "10", "0")
 	small := gen.Lit("1", "1.0", "1.1", "2.0", "1.0.0")
 	if lvl > 0 {
-		small = gen.Alt(small, gen.Lit("0", "1.0.1", "2", "1.2.3.4"))
+		small = gen.Alt(small, gen.Lit("0", "1.0.1", "2", "1.2.3.4", "1.0.0.0", "10.0", "0.0.1", "2.1"))
+		num = gen.Lit("1", "2", "10", "0", "01", "2147483648")
 	}
 	return gen.Alt(
 		core,
